@@ -215,7 +215,7 @@ theorem View.uncheckedOK (v : View ν α) : v.WF → UncheckedOK v := by
     simp only [lens_length, hlen] at la
     simp only [View.getUnchecked]
     refine ih hw.1 _ c (by rw [access_inBounds hw.2 la, hin]) ?_
-    rw [mapDimensionsToSource_eq_coords hgood hw.2]; exact hc
+    rw [mapDimensionsToSource_eq_coords_of_good hgood hw.2]; exact hc
   | transpose s m ih =>
     intro hw idx c hin hc
     simp only [View.WF] at hw
@@ -226,7 +226,7 @@ theorem View.uncheckedOK (v : View ν α) : v.WF → UncheckedOK v := by
     simp only [lens_length, hlen] at la
     simp only [View.getUnchecked]
     refine ih hw.1 _ c (by rw [access_inBounds hw.2 la, hin]) ?_
-    rw [mapDimensionsToSource_eq_coords hgood hw.2]; exact hc
+    rw [mapDimensionsToSource_eq_coords_of_good hgood hw.2]; exact hc
   | stack ss along ih =>
     intro hw idx c hin hc
     have hw' := hw
